@@ -52,6 +52,14 @@ theorem digest_eq_rfc (t : Totp) (c : Nat) :
   rw [truncate_eq_dynTrunc _ (by rw [hmac_length (hashAlg_wf _)]; exact (hashAlg_wf _).out_ge)]
   simp only [Rfc.hotp, h1, h2, h3]
 
+/-- The specification's truncation (§5.3, arithmetic) is RFC 4226 §5.4's reference expression
+`(hs[o] & 0x7f) << 24 | (hs[o+1] & 0xff) << 16 | (hs[o+2] & 0xff) << 8 | (hs[o+3] & 0xff)`. -/
+theorem hotp_eq_reference (a : Algo) (key : List Nat) (c digits : Nat) :
+    Rfc.hotp a key c digits =
+      Rfc.refTrunc (hmac (hashAlg (stdHash a)) key (Rfc.counter8 c)) % 10 ^ digits := by
+  unfold Rfc.hotp
+  rw [dynTrunc_eq_refTrunc _ (fun b hb => hmac_lt (hashAlg_wf _) _ _ b hb)]
+
 /-- The previous time step: `⌊(t − X) / X⌋ = ⌊t / X⌋ − 1`. -/
 theorem prev_step_counter (secs step : Nat) :
     (secs - step) / step = secs / step - 1 := by
